@@ -412,4 +412,13 @@ def size_limit_histories():
             n += 1
         pkt = hdr(14, 0x8180, 1, n, 0, 0) + q + recs
         out.append(scen(pkt, [ins, op_insert("AR", 5), {"op": "read_question"}]))
+    # the other size limit: a packet cannot grow beyond 65535 bytes.  Pointer-free packets a few bytes below it:
+    # a name set through a cursor that fits exactly / is one byte too long, then reads and an edit that shrinks
+    small_q = name("q") + [0, 1, 0, 1]
+    for room in (9, 10, 11):
+        body = 65535 - room - (12 + len(small_q)) - (3 + 10) - (3 + 10 + 4)
+        pkt = hdr(15, 0x8180, 1, 2, 0, 0) + small_q + rr(name("a"), 16, 1, [99] * body) + rr(name("b"), 1, 2, [1, 2, 3, 4])
+        assert len(pkt) == 65535 - room
+        grow = cursor_op("AN", False, 1, [("set_raw_name", name("b" * 10)), ("set_raw_name", name("c" * 11)), ("next", [])])   # +10, then one more
+        out.append(scen(pkt, [grow, {"op": "read_question"}, cursor_op("AN", False, 0, [("set_raw_name", name("z")), ("next", []), ("delete", [])])]))
     return out
